@@ -163,6 +163,11 @@ func (t *Typedef) resolve(d *typeDictionary) []error {
 	if t.Parent == nil || t.YangType != nil {
 		return nil
 	}
+	if t.resolving {
+		return []error{fmt.Errorf("%s: typedef %s is based on itself", Source(t), t.Name)}
+	}
+	t.resolving = true
+	defer func() { t.resolving = false }()
 
 	if errs := t.Type.resolve(d); len(errs) != 0 {
 		return errs
